@@ -392,29 +392,31 @@ def checkMethodArg (methodOneway : Bool) (a : Arg) : List Diag :=
 
 def checkMethodArgs (m : Method) : List Diag := m.args.flatMap (checkMethodArg m.oneway)
 
-/-- `check_method` -/
-def checkMethod (m : Method) : List Diag :=
-  (if m.oneway && m.returnType.kind ≠ .void then
+/-- the return-type check at the top of `check_method` -/
+def returnDiags (m : Method) : List Diag :=
+  if m.oneway && m.returnType.kind ≠ .void then
     [mkDiag .error m.returnType.sym ("Invalid return type of async method `" ++ m.returnType.name ++ "`")
       (some "must be void") (some "return type of async methods must be `void`")]
-   else [])
-  ++ checkMethodArgs m
+  else []
 
-/-- the mutable locals of `check_methods` -/
-structure MethodsState where
+/-- `check_method` -/
+def checkMethod (m : Method) : List Diag := returnDiags m ++ checkMethodArgs m
+
+/-- the mutable locals of `check_methods` (the diagnostics vector is threaded separately) -/
+structure IdState where
   names : List (String × Method) := []          -- method_names
   firstWithoutId : Option Method := none
   firstWithId : Option Method := none
   ids : List (Nat × Method) := []               -- method_ids
-  diags : List Diag := []
 
-/-- the duplicate / mixed / id part of the closure of `check_methods` (after `check_method`);
+/-- the duplicate-name / mixed / duplicate-id part of the closure of `check_methods` (what follows
+    the call of `check_method`): new locals and the diagnostics pushed;
     `Except.error` = the two `unwrap()`s -/
-def checkMethodIdsStep (s : MethodsState) (m : Method) : Except String MethodsState :=
+def checkMethodIdsStep (s : IdState) (m : Method) : Except String (IdState × List Diag) :=
   match s.names.lookup m.name with
   | some previous =>
-    .ok { s with diags := s.diags ++ [mkDiag .error m.sym ("Duplicated method name `" ++ m.name ++ "`")
-            (some "duplicated method name") none [{ message := "previous location", range := previous.sym }]] }
+    .ok (s, [mkDiag .error m.sym ("Duplicated method name `" ++ m.name ++ "`")
+            (some "duplicated method name") none [{ message := "previous location", range := previous.sym }]])
   | none =>
     let names := s.names ++ [(m.name, m)]
     let mixedWithId := s.firstWithId.isNone && s.firstWithoutId.isSome && m.transactCode.isSome
@@ -441,26 +443,30 @@ def checkMethodIdsStep (s : MethodsState) (m : Method) : Except String MethodsSt
       let firstWithId := if m.transactCode.isSome && s.firstWithId.isNone then some m else s.firstWithId
       let firstWithoutId := if m.transactCode.isNone && s.firstWithoutId.isNone then some m else s.firstWithoutId
       match m.transactCode with
-      | none => .ok { names, firstWithId, firstWithoutId, ids := s.ids, diags := s.diags ++ mixedDiags }
+      | none => .ok ({ names, firstWithId, firstWithoutId, ids := s.ids }, mixedDiags)
       | some id =>
         match s.ids.lookup id with
         | some prev =>
-          .ok { names, firstWithId, firstWithoutId, ids := s.ids,
-                diags := s.diags ++ mixedDiags ++ [mkDiag .error m.transactCodeRange "Duplicated method id"
-                  (some "duplicated import") none [{ range := prev.transactCodeRange, message := "previous method" }]] }
+          .ok ({ names, firstWithId, firstWithoutId, ids := s.ids },
+                mixedDiags ++ [mkDiag .error m.transactCodeRange "Duplicated method id"
+                  (some "duplicated import") none [{ range := prev.transactCodeRange, message := "previous method" }]])
         | none =>
-          .ok { names, firstWithId, firstWithoutId, ids := s.ids ++ [(id, m)], diags := s.diags ++ mixedDiags }
+          .ok ({ names, firstWithId, firstWithoutId, ids := s.ids ++ [(id, m)] }, mixedDiags)
 
-/-- the closure of `check_methods` -/
-def checkMethodsStep (s : Except String MethodsState) (m : Method) : Except String MethodsState :=
+/-- the closure of `check_methods`: `check_method`, then the id bookkeeping -/
+def checkMethodsStep (s : Except String (IdState × List Diag)) (m : Method) :
+    Except String (IdState × List Diag) :=
   match s with
   | .error e => .error e
-  | .ok s => checkMethodIdsStep { s with diags := s.diags ++ checkMethod m } m
+  | .ok (st, diags) =>
+    match checkMethodIdsStep st m with
+    | .error e => .error e
+    | .ok (st', new) => .ok (st', diags ++ checkMethod m ++ new)
 
 /-- `check_methods` -/
 def checkMethods (ast : AidlFile) : Except String (List Diag) :=
-  match walkMethods ast checkMethodsStep (.ok {}) with
-  | .ok s => .ok s.diags
+  match walkMethods ast checkMethodsStep (.ok ({}, [])) with
+  | .ok s => .ok s.2
   | .error e => .error e
 
 /-! ### sort and `validate` -/
@@ -476,26 +482,54 @@ def stableSortBy {α} (key : α → Nat) (l : List α) : List α :=
 
 def sortDiags (ds : List Diag) : List Diag := stableSortBy (fun d => d.range.start.off) ds
 
+/-- the diagnostics of one file, by the step of `validate` that pushed them, and the final tree -/
+structure Groups where
+  ast : AidlFile
+  syn : List Diag           -- already present before validation
+  unknown : List Diag       -- resolve_types
+  imports : List Diag       -- check_imports
+  decls : List Diag         -- check_declared_parcelables
+  containers : List Diag    -- check_containers
+  oneway : List Diag        -- set_up_oneway_interface
+  methods : List Diag       -- check_methods
+
+/-- in push order -/
+def Groups.all (g : Groups) : List Diag :=
+  g.syn ++ g.unknown ++ g.imports ++ g.decls ++ g.containers ++ g.oneway ++ g.methods
+
+/-- `set_up_oneway_interface` applied to the item when it is an interface -/
+def setUpOneway (ast : AidlFile) : AidlFile × List Diag :=
+  match ast.item with
+  | .interface i => let r := setUpOnewayInterface i; ({ ast with item := .interface r.1 }, r.2)
+  | _ => (ast, [])
+
+/-- body of the `map` closure of `validation::validate` for one file that has a tree,
+    before the final sort -/
+def validateGroups (ho : HashOrder) (defined : Defined) (syntaxDiags : List Diag) (ast : AidlFile) :
+    Except String Groups :=
+  let imports := ast.imports.map Import.qname
+  let declared := ast.declaredParcelables.map Import.qname
+  let r1 := resolveTypes ast imports declared defined
+  let r2 := checkImports ho r1.1.imports r1.2.1 defined
+  let d3 := checkDeclaredParcelables ho r1.1.declaredParcelables r2.1 r1.2.1
+  match checkContainers r1.1 with
+  | .error e => .error e
+  | .ok d4 =>
+    let r5 := setUpOneway r1.1
+    match checkMethods r5.1 with
+    | .error e => .error e
+    | .ok d6 =>
+      .ok { ast := r5.1, syn := syntaxDiags, unknown := r1.2.2, imports := r2.2, decls := d3,
+            containers := d4, oneway := r5.2, methods := d6 }
+
 /-- body of the `map` closure of `validation::validate` for one file -/
 def validateFile (ho : HashOrder) (defined : Defined) (fr : FileResult) : Except String FileResult :=
   match fr.ast with
   | none => .ok fr
   | some ast =>
-    let imports := ast.imports.map Import.qname
-    let declared := ast.declaredParcelables.map Import.qname
-    let (ast, resolved, d1) := resolveTypes ast imports declared defined
-    let (importMap, d2) := checkImports ho ast.imports resolved defined
-    let d3 := checkDeclaredParcelables ho ast.declaredParcelables importMap resolved
-    match checkContainers ast with
+    match validateGroups ho defined fr.diags ast with
     | .error e => .error e
-    | .ok d4 =>
-      let (ast, d5) : AidlFile × List Diag := match ast.item with
-        | .interface i => let r := setUpOnewayInterface i; ({ ast with item := .interface r.1 }, r.2)
-        | _ => (ast, [])
-      match checkMethods ast with
-      | .error e => .error e
-      | .ok d6 =>
-        .ok { id := fr.id, ast := some ast, diags := sortDiags (fr.diags ++ d1 ++ d2 ++ d3 ++ d4 ++ d5 ++ d6) }
+    | .ok g => .ok { id := fr.id, ast := some g.ast, diags := sortDiags g.all }
 
 def mapExcept {α β ε} (f : α → Except ε β) : List α → Except ε (List β)
   | [] => .ok []
